@@ -357,10 +357,10 @@ class Built:
     pass
 
 
-def _hook(variant, point):
+def _hook(variant, point, B=None):
     cb = (variant or {}).get('hook')
     if cb is not None:
-        cb(point)
+        cb(point, B)
 
 
 def build(spec, variant=None):
@@ -411,7 +411,7 @@ def build(spec, variant=None):
 
     B.lin, B.mat = lin, mat
     B.constr = []
-    _hook(variant, 'declared')
+    _hook(variant, 'declared', B)
     # bounds
     for bi, x in enumerate(xs):
         lo = np.array([spec['bounds'][i]['lo'] for i in range(off[bi], off[bi + 1])])
@@ -455,7 +455,7 @@ def build(spec, variant=None):
         z0 = 0 * xs[0][0]
         B.constr.append(m.st(z0 <= rhs if sense == 'le' else z0 == rhs))
     for c in spec['cvx']:
-        _hook(variant, 'row')
+        _hook(variant, 'row', B)
         B.constr.append(m.st(cvx_constraint(rso, B, c, rng)))
     for s in spec['special']:
         if s['kind'] == 'rsocone':
@@ -467,7 +467,7 @@ def build(spec, variant=None):
         else:
             c = rso.kldiv(mat(s['M'], s['v']), arr(s['q']), s['r'])
         B.constr.append(m.st(c))
-    _hook(variant, 'objective')
+    _hook(variant, 'objective', B)
     o = spec['obj']
     e = lin(o['c'], o['k'])
     if o.get('cvx'):
